@@ -1,5 +1,6 @@
 """C04 — decoding independent of read chunking; resynchronises on every frame."""
 import itertools
+import hashlib
 import common as C
 import mp, frames
 
@@ -121,7 +122,7 @@ def explore(ctx):
             # resynchronisation, implementation against itself: the stream from frame i on, read alone
             for i in range(1, len(fr)):
                 suf = b"".join(fr[i:])
-                lines.append("dec d%d %s stream=%s chunks=- mode=rest end=eof nt=0 suffixof=%s skip=%d" % (k, frames.ENV, suf.hex(), s.hex()[:40] + str(n), i)); k += 1
+                lines.append("dec d%d %s stream=%s chunks=- mode=rest end=eof nt=0 suffixof=%s skip=%d" % (k, frames.ENV, suf.hex(), hashlib.sha1(s.hex().encode()).hexdigest(), i)); k += 1
             lines.append("dec d%d %s stream=%s chunks=- mode=rest end=eof nt=0" % (k, frames.ENV, s.hex())); k += 1
             lines.append("dec d%d %s stream=%s chunks=- mode=one end=eof nt=1" % (k, frames.ENV, s.hex())); k += 1
             for _ in range(6):
@@ -152,7 +153,7 @@ def explore(ctx):
     for c, v, o in triples:
         if c.startswith("dec ") and o and "suffixof=" not in c:
             st = field(c, "stream")
-            whole[st[:40] + str(len(st) // 2)] = field(o, "outs").split("|")
+            whole[hashlib.sha1(st.encode()).hexdigest()] = field(o, "outs").split("|")
     for c, v, o in triples:
         if "suffixof=" in c and o:
             w = whole.get(field(c, "suffixof"))
